@@ -7,6 +7,7 @@
 //! exit 1: at least one `VIOLATION property=<id> replay=<path>` line was printed
 //! exit 2: harness error (no verdict)
 
+mod bodyfx;
 mod corpus;
 mod mon;
 mod prng;
